@@ -1,6 +1,6 @@
 """Property -> rules mapping, level texts, assumptions."""
 from . import entries
-from .rules import (canon, codec, facade, flag, floatrule, guard, limbs, macro, sibling, structural, table, total_rule, unimpl,
+from .rules import (canon, castfit, codec, facade, flag, floatrule, guard, limbs, macro, sibling, structural, table, total_rule, unimpl,
                     variant, witness)
 
 COMMON_ASSUMPTIONS = [
@@ -91,7 +91,7 @@ def rules_with_canon(pid, files, extra=None):
 
 def rules_C07(ctx):
     return total_for("C07", ctx) + [structural.maskkind(ctx), flag.lowlimb(ctx), variant.run(ctx, "all", ["conv"]),
-                                    guard.try_from_u64_model(ctx),
+                                    guard.try_from_u64_model(ctx), castfit.run(ctx),
                                     flag.feasible_failure(ctx, "all", {"crate::Uint::<BITS, LIMBS>::overflowing_from_limbs_slice"})]
 
 
